@@ -1386,5 +1386,5 @@ func init() {
 		Quick: 28000, Thorough: 400000}, genFind(true, 200, 2500), checkFind)
 	ev.Define("find_index_target", ev.Options{
 		Rule:  "closest and furthest with a second index as the target (1..5 shapes, 1..60 edges, either drawn independently or placed about probes of the indexed geometry). Oracle: per indexed edge the best edge pair over all target edges (zero/π when the edge midpoint/its antipode lies in a target polygon), interiors from the first vertex of every target chain. MaxError>0: true ≤ reported ≤ true+MaxError per entry and per rank. Non-trivial as find_closest.",
-		Quick: 8000, Thorough: 100000}, genFindIndexTarget, checkFind)
+		Quick: 14000, Thorough: 150000}, genFindIndexTarget, checkFind)
 }
